@@ -34,7 +34,7 @@ def main():
         res["demo_tail"] = out.strip().splitlines()[-3:]
         for pid in ids:
             t0 = time.time()
-            cmd = "./vcheck run %s --tier %s" % (pid, tier) + ((" --runs %s" % runs) if runs else "")
+            cmd = "./vcheck run %s --tier %s" % (pid, tier) + ((" --runs %s" % runs) if runs else "") + ((" --budget %s" % os.environ["EVAL_BUDGET"]) if os.environ.get("EVAL_BUDGET") else "")
             e2 = dict(os.environ, VERIF_REPO=wt, VERIF_NO_EVIDENCE="1")
             rc, out = sh(cmd, cwd="/verif", env=e2, timeout=3600)
             lines = [l for l in out.splitlines() if l.startswith("VIOLATION") or l.startswith("  check=") or "HARNESS" in l]
